@@ -67,7 +67,7 @@ fn attack_strategy(tier: Tier) -> BoxedStrategy<Attack> {
         3 => proptest::collection::vec(any::<u8>(), 1..200).prop_map(Attack::Random),
         2 => proptest::collection::vec(prop_oneof![Just(b'*'), Just(b'$'), Just(b':'), Just(b'+'), Just(b'-'), Just(b'\r'), Just(b'\n'), Just(b'0'), Just(b'1'), Just(b'9')], 1..64).prop_map(Attack::Random),
         3 => frame_strategy(3, false).prop_map(Attack::NonCommand),
-        8 => (0u8..18, any::<u8>()).prop_map(|(v, k)| Attack::BadCommand(v, k)),
+        10 => (0u8..26, any::<u8>()).prop_map(|(v, k)| Attack::BadCommand(v, k)),
         3 => (1u16..u16::MAX, any::<bool>()).prop_map(|(f, c)| Attack::Truncated(f, c)),
         2 => (0u32..=maxlog, 0u32..1000, 0u8..4).prop_map(|(l, frac, v)| {
             let lo = 1u32 << l;
@@ -236,7 +236,16 @@ fn attack_bytes(a: &Attack, ncontrols: usize) -> (Vec<u8>, bool, &'static str) {
         Attack::BadCommand(v, k) => {
             let ck = control_key(*k as usize % ncontrols.max(1), *k);
             let nil = F::Null;
-            let b = match v % 18 {
+            let b = match v % 26 {
+                // names that are near misses of the three commands, with a fitting argument count
+                18 => command(&[b"DELETE", &ck]),
+                19 => command(&[b"SETNX", &ck, b"hijacked"]),
+                20 => command(&[b"", &ck]),
+                21 => command(&[b"S", &ck, b"x"]),
+                22 => command(&[b"DE", &ck]),
+                23 => command(&[b"SETEX", &ck, b"x"]),
+                24 => command(&[b"GETSET", &ck, b"x"]),
+                25 => command(&[b"DEL ", &ck]),
                 // a DEL/GET/SET whose leading arguments are fine and name CONTROL keys, followed
                 // by one malformed argument: nothing of it may be applied
                 10 => command(&[b"DEL", &ck, b"\xff\xfe"]),
